@@ -1,46 +1,62 @@
 (* C05 — the route taken by both paths (CONNECT: martian's connect; plain: the Transport) is the spec's route. *)
 From G05 Require Import Routing Spec Check AddrProofs.
 
-Definition presult_wf (r : presult) : Prop :=
+Definition presult_wf (idna : str -> str) (r : presult) : Prop :=
   match r with
-  | PUrl sch hp => ptype_of_scheme sch <> None /\ canon_hp hp = true
+  | PUrl sch hp => ptype_of_scheme sch <> None /\ canon_hp hp = true /\ idna (url_hostname hp) = url_hostname hp
   | _ => True
   end.
 
-(* what the configuration layer guarantees for upstreams that do not come from a PAC script:
-   config.go validateProxyURL for the static upstream (scheme http/https/socks5, numeric non-empty port);
-   an embedding program's UpstreamProxyFunc must deliver the same *)
+(* what the theorems need from the environment of the routing code:
+   - non-PAC upstreams are well formed: config.go validateProxyURL for the static upstream (scheme
+     http/https/socks5, ASCII host name or IP, numeric port); an embedding program's UpstreamProxyFunc must
+     deliver the same;
+   - the IDNA mapping leaves ASCII names alone (net/http and asciiHostname only call it on non-ASCII names);
+   - a PAC answer is ASCII (pac.go rejects anything else). *)
 Definition cfg_wf (cfg : config) : Prop :=
-  (forall f t, c_upfunc cfg = Some f -> presult_wf (f t)) /\
-  (forall u, c_upstream cfg = Some u -> presult_wf (PUrl (fst u) (snd u))).
+  (forall f t, c_upfunc cfg = Some f -> presult_wf (c_idna cfg) (f t)) /\
+  (forall u, c_upstream cfg = Some u -> presult_wf (c_idna cfg) (PUrl (fst u) (snd u))) /\
+  (forall s, is_ascii s = true -> c_idna cfg s = s) /\
+  (forall p t s, c_pac cfg = Some p -> p t = PacOk s -> is_ascii s = true).
 
-Lemma cfg_wf_no_static cfg : c_upfunc cfg = None -> c_upstream cfg = None -> cfg_wf cfg.
-Proof. intros Hf Hu. split; [intros f t; rewrite Hf; discriminate | intros u; rewrite Hu; discriminate]. Qed.
-
-(* a static upstream as config.go validates it: supported scheme, host without brackets, numeric port *)
-Lemma cfg_wf_static cfg sch h p :
-  c_upfunc cfg = None -> c_upstream cfg = Some (sch, join_host_port h p) ->
-  ptype_of_scheme sch <> None -> has_byte 91 h = false -> has_byte 93 h = false -> valid_port16 p = true ->
-  cfg_wf cfg.
+Lemma cfg_wf_no_static cfg :
+  c_upfunc cfg = None -> c_upstream cfg = None ->
+  (forall s, is_ascii s = true -> c_idna cfg s = s) ->
+  (forall p t s, c_pac cfg = Some p -> p t = PacOk s -> is_ascii s = true) -> cfg_wf cfg.
 Proof.
-  intros Hf Hu Hs H1 H2 Hv. split; [intros f t; rewrite Hf; discriminate|].
-  intros u; rewrite Hu; intros E; inversion E; subst. cbn [fst snd presult_wf].
-  split; [exact Hs | apply canon_join; assumption].
+  intros Hf Hu Hi Hp. split; [intros f t; rewrite Hf; discriminate|].
+  split; [intros u; rewrite Hu; discriminate|]. split; assumption.
 Qed.
 
-(* a static upstream that passed config.go's validation (scheme in its list, host name or IP, numeric port)
-   is well formed in the sense the theorems need *)
-Lemma static_upstream_wf sch h p :
+(* a static upstream as config.go validates it: supported scheme, ASCII host without brackets, numeric port *)
+Lemma cfg_wf_static cfg sch h p :
+  c_upfunc cfg = None -> c_upstream cfg = Some (sch, join_host_port h p) -> c_pac cfg = None ->
+  (forall s, is_ascii s = true -> c_idna cfg s = s) ->
+  ptype_of_scheme sch <> None -> has_byte 91 h = false -> has_byte 93 h = false -> is_ascii h = true ->
+  valid_port16 p = true ->
+  cfg_wf cfg.
+Proof.
+  intros Hf Hu Hp Hi Hs H1 H2 Ha Hv. split; [intros f t; rewrite Hf; discriminate|]. split.
+  - intros u; rewrite Hu; intros E; inversion E; subst. cbn [fst snd presult_wf].
+    split; [exact Hs|]. split; [apply canon_join; assumption|].
+    rewrite (url_hostname_join h p H1 H2 Hv). apply Hi, Ha.
+  - split; [exact Hi|]. intros q t s; rewrite Hp; discriminate.
+Qed.
+
+(* a static upstream that passed config.go's validation (scheme in its list, ASCII host name or IP, numeric
+   port) is well formed in the sense the theorems need *)
+Lemma static_upstream_wf idna sch h p :
   forallb (fun s => match connect_handler s, ptype_of_scheme s with Some _, Some _ => true | _, _ => false end)
           upstream_supported_schemes = true ->
   mem sch upstream_supported_schemes = true ->
-  has_byte 91 h = false -> has_byte 93 h = false -> valid_port16 p = true ->
-  presult_wf (PUrl sch (join_host_port h p)).
+  has_byte 91 h = false -> has_byte 93 h = false -> valid_port16 p = true -> idna h = h ->
+  presult_wf idna (PUrl sch (join_host_port h p)).
 Proof.
-  intros Hall Hm H1 H2 Hv. unfold mem in Hm. apply existsb_exists in Hm as [x [Hin Hx]].
+  intros Hall Hm H1 H2 Hv Hi. unfold mem in Hm. apply existsb_exists in Hm as [x [Hin Hx]].
   apply str_eqb_eq in Hx. subst x. rewrite forallb_forall in Hall. specialize (Hall sch Hin).
-  cbn [presult_wf]. split; [|apply canon_join; assumption].
-  destruct (connect_handler sch); [|discriminate]. destruct (ptype_of_scheme sch); [discriminate | discriminate].
+  cbn [presult_wf]. split; [|split; [apply canon_join; assumption|]].
+  - destruct (connect_handler sch); [|discriminate]. destruct (ptype_of_scheme sch); [discriminate | discriminate].
+  - rewrite (url_hostname_join h p H1 H2 Hv). exact Hi.
 Qed.
 
 Lemma presult_hop_round h : presult_hop (hop_presult h) = h.
@@ -58,39 +74,51 @@ Section Route.
   Hypothesis Hprec : forall cfg t, proxy_for cfg t = spec_proxy cfg t.
   Hypothesis Hpac : forall r, pac_proxy r = hop_presult (spec_pac r).
 
-  (* every URL pacProxy returns has a supported scheme and a canonical host:port *)
-  Lemma spec_pac_entry_wf s ty hp : spec_pac_entry s = HProxy ty hp -> canon_hp hp = true.
+  (* every URL pacProxy returns has a supported scheme, a canonical host:port and an ASCII host *)
+  Lemma spec_pac_entry_wf s ty hp :
+    is_ascii s = true -> spec_pac_entry s = HProxy ty hp ->
+    canon_hp hp = true /\ is_ascii (url_hostname hp) = true.
   Proof.
-    unfold spec_pac_entry. destruct (is_empty (first_entry s) || str_eqb (first_entry s) (b "DIRECT")); [discriminate|].
-    destruct (cut_byte 32 (first_entry s)) as [[kw x]|]; [|discriminate].
+    intros Ha. unfold spec_pac_entry.
+    destruct (is_empty (first_entry s) || str_eqb (first_entry s) (b "DIRECT")); [discriminate|].
+    assert (He : is_ascii (first_entry s) = true).
+    { unfold first_entry. apply ascii_trim_space. destruct (cut_byte 59 s) as [[x y]|] eqn:E; [|exact Ha].
+      apply (ascii_cut_byte 59 s x y Ha E). }
+    destruct (cut_byte 32 (first_entry s)) as [[kw x]|] eqn:Ec; [|discriminate].
+    destruct (ascii_cut_byte 32 _ kw x He Ec) as [_ Hx].
     destruct (split_host_port x) as [[h p]|] eqn:Es; [|discriminate].
     destruct (valid_host h); cbn [negb]; [|discriminate].
     destruct (valid_port16 p) eqn:Ev; cbn [negb]; [|discriminate].
     destruct (spec_keyword kw) as [[ty'|]|]; try discriminate.
     intros H; inversion H; subst.
     destruct (split_host_no_brackets _ _ _ Es) as [H1 H2].
-    apply canon_join; assumption.
+    split; [apply canon_join; assumption|].
+    rewrite (url_hostname_join h p H1 H2 Ev). exact (ascii_split_host x h p Hx Es).
   Qed.
 
-  Lemma pac_proxy_wf r : presult_wf (pac_proxy r).
+  Lemma pac_proxy_wf idna r :
+    (forall s, is_ascii s = true -> idna s = s) -> (forall s, r = PacOk s -> is_ascii s = true) ->
+    presult_wf idna (pac_proxy r).
   Proof.
-    rewrite Hpac. destruct r as [|s]; [exact I|]. cbn [spec_pac].
+    intros Hi Ha. rewrite Hpac. destruct r as [|s]; [exact I|]. cbn [spec_pac].
     destruct (spec_pac_entry s) as [|ty hp|] eqn:E; cbn [hop_presult presult_wf]; try exact I.
-    split; [rewrite ptype_scheme_supported; discriminate | eapply spec_pac_entry_wf; exact E].
+    destruct (spec_pac_entry_wf s ty hp (Ha s eq_refl) E) as [Hc Hh].
+    split; [rewrite ptype_scheme_supported; discriminate|]. split; [exact Hc | apply Hi, Hh].
   Qed.
 
-  Lemma proxy_for_wf cfg t : cfg_wf cfg -> presult_wf (proxy_for cfg t).
+  Lemma proxy_for_wf cfg t : cfg_wf cfg -> presult_wf (c_idna cfg) (proxy_for cfg t).
   Proof.
-    intros [Hf Hu]. rewrite Hprec. unfold spec_proxy, spec_base.
+    intros (Hf & Hu & Hi & Hp). rewrite Hprec. unfold spec_proxy, spec_base.
     destruct (c_upfunc cfg) as [f|] eqn:Ef.
     - destruct (direct_domain cfg (hostname t)); [exact I|].
       destruct (localhost_direct cfg (hostname t)); [exact I|]. eapply Hf; reflexivity.
     - destruct (c_upstream cfg) as [u|] eqn:Eu.
       + destruct (direct_domain cfg (hostname t)); [exact I|].
         destruct (localhost_direct cfg (hostname t)); [exact I|]. apply Hu; reflexivity.
-      + destruct (c_pac cfg) as [p|]; [|exact I].
+      + destruct (c_pac cfg) as [p|] eqn:Epac; [|exact I].
         destruct (direct_domain cfg (hostname t)); [exact I|].
-        destruct (localhost_direct cfg (hostname t)); [exact I|]. apply pac_proxy_wf.
+        destruct (localhost_direct cfg (hostname t)); [exact I|].
+        apply pac_proxy_wf; [exact Hi | intros s Es; exact (Hp p t s eq_refl Es)].
   Qed.
 
   (* the hop named by the composed proxy function is the spec's hop *)
@@ -122,18 +150,18 @@ Section Route.
     discriminate.
   Qed.
 
-  Lemma route_of_presult rules pr t :
-    presult_wf pr ->
-    match t_kind t with Connect => route_connect rules pr t | Plain => route_plain rules pr t end =
-    spec_route_hop rules (presult_hop pr) t.
+  Lemma route_of_presult idna puny rules pr t :
+    presult_wf idna pr ->
+    match t_kind t with Connect => route_connect puny rules pr t | Plain => route_plain idna puny rules pr t end =
+    spec_route_hop idna puny rules (presult_hop pr) t.
   Proof.
     intros Hwf. destruct pr as [|sch hp|].
     - unfold spec_route_hop, spec_named, presult_hop, spec_target_addr, route_connect, route_plain.
       destruct (t_kind t); rewrite dial_redirect_is_spec; reflexivity.
-    - destruct Hwf as [Hs Hc]. unfold presult_hop.
+    - destruct Hwf as (Hs & Hc & Hi). unfold presult_hop.
       destruct (ptype_of_scheme sch) as [ty|] eqn:Ety; [|congruence].
       unfold spec_route_hop, spec_named, spec_wire, spec_target_addr, route_connect, route_plain.
-      rewrite (canon_canonical_addr _ _ Hc), Hsocks.
+      rewrite (canon_canonical_addr idna _ _ Hc Hi), Hsocks.
       destruct (ptype_cases _ _ Ety) as [[-> ->]|[[-> ->]|[-> ->]]].
       + rewrite handler_http, Htls, (canon_connect_addr _ _ Hc), !dial_redirect_is_spec.
         destruct (t_kind t); [destruct (str_eqb (t_scheme t) (b "http"))|]; reflexivity.
@@ -148,7 +176,7 @@ Section Route.
   Proof.
     intros Hwf. unfold route, spec_route. destruct Hshared as [-> ->].
     rewrite <- hop_of_proxy_for.
-    pose proof (route_of_presult rules (proxy_for cfg t) t (proxy_for_wf cfg t Hwf)) as H.
+    pose proof (route_of_presult (c_idna cfg) (c_puny cfg) rules (proxy_for cfg t) t (proxy_for_wf cfg t Hwf)) as H.
     destruct (t_kind t); exact H.
   Qed.
 
@@ -182,22 +210,22 @@ Section Route.
   Qed.
 
   Theorem unsupported_fails cfg rules t p s kw rest :
+    cfg_wf cfg ->
     c_upfunc cfg = None -> c_upstream cfg = None -> c_pac cfg = Some p ->
     direct_domain cfg (hostname t) = false -> localhost_direct cfg (hostname t) = false ->
     p t = PacOk s -> (kw = b "SOCKS" \/ kw = b "SOCKS4") -> first_entry s = kw ++ 32 :: rest ->
     route cfg rules t = OFail.
   Proof.
-    intros Hf Hu Hp Hd Hl Hs Hkw He. apply fail_on_both_paths.
-    - split; [intros f t'; rewrite Hf; discriminate | intros u; rewrite Hu; discriminate].
-    - unfold spec_hop, spec_upstream. rewrite Hf, Hu, Hp, Hd, Hl, Hs. cbn [spec_pac].
-      eapply unsupported_entry_fails; eassumption.
+    intros Hwf Hf Hu Hp Hd Hl Hs Hkw He. apply fail_on_both_paths; [exact Hwf|].
+    unfold spec_hop, spec_upstream. rewrite Hf, Hu, Hp, Hd, Hl, Hs. cbn [spec_pac].
+    eapply unsupported_entry_fails; eassumption.
   Qed.
 
   (* the plain request and the CONNECT for the same host use the same first hop, or both fail *)
-  Lemma first_hop_spec_agree rules h tp tc :
+  Lemma first_hop_spec_agree idna puny rules h tp tc :
     t_kind tp = Plain -> t_kind tc = Connect -> t_scheme tp = b "http" ->
-    spec_target_addr tp = spec_target_addr tc ->
-    first_hop (spec_route_hop rules h tp) = first_hop (spec_route_hop rules h tc).
+    spec_target_addr idna tp = spec_target_addr idna tc ->
+    first_hop (spec_route_hop idna puny rules h tp) = first_hop (spec_route_hop idna puny rules h tc).
   Proof.
     intros Kp Kc Sp Ha. destruct h as [|ty hp|]; cbn [spec_route_hop first_hop wire_role]; [| |reflexivity].
     - rewrite Ha. reflexivity.
@@ -207,7 +235,7 @@ Section Route.
   Theorem http_connect_agree cfg rules tp tc :
     cfg_wf cfg ->
     t_kind tp = Plain -> t_kind tc = Connect -> t_scheme tp = b "http" ->
-    spec_target_addr tp = spec_target_addr tc ->
+    spec_target_addr (c_idna cfg) tp = spec_target_addr (c_idna cfg) tc ->
     spec_hop cfg tp = spec_hop cfg tc ->
     first_hop (route cfg rules tp) = first_hop (route cfg rules tc).
   Proof.
@@ -262,10 +290,15 @@ Definition ex_pac (t : target) : pac_res :=
 Definition ex_cfg : config :=
   {| c_upfunc := None; c_upstream := None; c_pac := Some ex_pac;
      c_direct := Some (fun h => str_eqb h (b "intra.test")); c_lh_mode := b "direct";
-     c_is_localhost := fun h => str_eqb h (b "localhost") |}.
+     c_is_localhost := fun h => str_eqb h (b "localhost"); c_idna := fun h => h; c_puny := fun h => h |}.
 Definition ex_rules : list rule := [mkrule (b "pa.test") [] (b "10.0.0.9") []; mkrule [] [] (b "sink.test") []].
 Definition ex_cfg_static : config :=
   {| c_upfunc := None; c_upstream := Some (b "socks5", join_host_port (b "pa.test") (b "1080")); c_pac := None;
-     c_direct := None; c_lh_mode := b "deny"; c_is_localhost := fun _ => false |}.
+     c_direct := None; c_lh_mode := b "deny"; c_is_localhost := fun _ => false; c_idna := fun h => h; c_puny := fun h => h |}.
 Lemma socks5_supported : ptype_of_scheme (b "socks5") <> None.
 Proof. discriminate. Qed.
+Lemma ex_pac_ascii : forall p t s, c_pac ex_cfg = Some p -> p t = PacOk s -> is_ascii s = true.
+Proof.
+  intros p t s E. inversion E; subst p. unfold ex_pac.
+  destruct (str_eqb (hostname t) (b "bad.test")); intros H; inversion H; reflexivity.
+Qed.
